@@ -16,7 +16,7 @@ from .world import World, LIB_AXIOMS
 
 VERIF = os.path.dirname(os.path.dirname(os.path.abspath(__file__)))
 
-CONTRACT_MODULES = ['contracts.base', 'contracts.adb_message', 'contracts.transport', 'contracts.iomanager', 'contracts.store', 'contracts.helpers', 'contracts.device', 'contracts.filesync', 'contracts.frames', 'contracts.twins', 'contracts.tcp']
+CONTRACT_MODULES = ['contracts.base', 'contracts.adb_message', 'contracts.transport', 'contracts.iomanager', 'contracts.store', 'contracts.helpers', 'contracts.device', 'contracts.filesync', 'contracts.frames', 'contracts.twins', 'contracts.tcp', 'contracts.usb', 'contracts.auth']
 
 
 def load_contracts():
